@@ -1,5 +1,5 @@
 //! C05 (macro forms) — `#[emit::span]` / `#[emit::info_span]` on sync and async fns, the `guard:` parameter and
-//! `emit::new_span!` blocks, for every combination of ok_lvl / err_lvl / err / panic_lvl and every exit path
+//! `emit::new_span!` blocks (started at once, started after another clock reading, never started), for every combination of ok_lvl / err_lvl / err / panic_lvl and every exit path
 //! (fall-through, early return, `?`, explicit `return Err`, panic). The instrumented functions are generated
 //! (tools/gen_c05m_fixtures.py → fixtures.rs) and compiled against the CURRENT macros crate on every run.
 //! Case: (c05m FORM LVL OK ERR MAPPED PAN ENABLED EXIT (clock R…)) — see lean/EmitModel/Driver/C05.lean.
@@ -180,7 +180,8 @@ fn run(line: &str) -> String {
         let events = LOG.with(|l| l.borrow().join(" "));
         let n = LOG.with(|l| l.borrow().len());
         let out = format!("ret={} events=({})", ret, events);
-        let expected = if enabled { 1 } else { 0 };
+        // a guard that is never started never completes
+        let expected = if enabled && form != "bunstarted" { 1 } else { 0 };
         Some(if n == expected { out } else { format!("{}\tFAIL:span-events={}-expected={}", out, n, expected) })
     })()
     .unwrap_or_else(|| "bad-case".into())
@@ -205,7 +206,7 @@ fn gen(rng: &mut Rng, _tier: Tier, n: usize) -> Vec<String> {
         let (e, enabled, exit) = base[i % base.len()];
         i += 1;
         let clock: Vec<Sexp> = if i <= base.len() {
-            vec![Sexp::num(3), Sexp::num(8)]
+            if e.form == "blate" { vec![Sexp::num(1), Sexp::num(3), Sexp::num(8)] } else { vec![Sexp::num(3), Sexp::num(8)] }
         } else {
             (0..rng.usize(4)).map(|_| if rng.chance(1, 4) { Sexp::atom("none") } else { Sexp::num(rng.below(30)) }).collect()
         };
